@@ -1117,3 +1117,45 @@ Proof.
     inversion H; subst. exists st1. split; [reflexivity|]. eapply resolve4_ctx_staked; eauto.
   - destruct (c4_addr cx) as [b|]; [|destruct obs; discriminate]. inversion H; subst. auto.
 Qed.
+
+(* ---------------------------------------------------------------- NewContext: from AAA attributes to the offer *)
+Lemma new_context4_fields pf vrf at4 :
+  let cx := new_context4 pf vrf at4 in
+  c4_pf cx = pf /\ c4_vrf cx = vrf /\ c4_pool cx = None /\
+  (forall b, c4_addr cx = Some b <-> pf <> 0 /\ exists a, at_v4 at4 = AvStr (Some a) /\ b = go_parse_ip a) /\
+  c4_ov cx = (if N.eqb pf 0 then 0 else match at_pool at4 with AvStr n => n | _ => 0 end).
+Proof.
+  unfold new_context4. destruct (N.eqb_spec pf 0) as [->|NZ]; cbn [c4_pf c4_vrf c4_pool c4_addr c4_ov].
+  - split; [reflexivity|]. split; [reflexivity|]. split; [reflexivity|].
+    split; [intros b; split; [discriminate | intros [HH _]; contradiction] | reflexivity].
+  - split; [reflexivity|]. split; [reflexivity|]. split; [reflexivity|]. split.
+    + intros b. split.
+      * intros H. split; [exact NZ|]. destruct (at_v4 at4) as [| |[a|]]; cbn in H; try discriminate.
+        inversion H. eauto.
+      * intros [_ [a [E ->]]]. rewrite E. reflexivity.
+    + destruct (at_pool at4); reflexivity.
+Qed.
+
+(* what ResolveV4 can offer a session whose context was built from its AAA attributes: when the context
+   carries an address it is that address and no pool is named; otherwise it is an answer of
+   AllocateFromProfile for the context's profile, override and VRF *)
+Lemma resolve4_from_context v r s cx obs wobs r' cx' b pool :
+  resolve4_ctx_opt v r s cx obs wobs = Some (r', cx', R4 b pool) ->
+  match c4_addr cx with
+  | Some a0 => b = a0 /\ pool = None
+  | None => exists st st' k, r = Some st /\ r' = Some st' /\ pool = Some k /\
+              reg_step v st (RAlloc F4 (c4_pf cx) (c4_ov cx) (c4_vrf cx) s obs) = Some (st', ROAns k (OA b))
+  end.
+Proof.
+  unfold resolve4_ctx_opt. intros H. destruct r as [st|].
+  - unfold resolve4_ctx in H.
+    destruct (resolve4 v st (c4_pf cx) (c4_ov cx) (c4_vrf cx) s (c4_addr cx) obs wobs) as [[st1 x]|] eqn:E; [|discriminate].
+    assert (x = R4 b pool /\ r' = Some st1) as [-> ->] by (destruct x as [|a0 [k|]]; inversion H; subst; auto).
+    unfold resolve4 in E. destruct (c4_addr cx) as [a0|].
+    + destruct (reg_step v st (RReserve F4 (RA (Some a0)) s wobs)) as [[st2 o]|]; [|discriminate].
+      destruct o; inversion E; subst; auto.
+    + destruct (reg_step v st (RAlloc F4 (c4_pf cx) (c4_ov cx) (c4_vrf cx) s obs)) as [[st2 o]|] eqn:E2; [|discriminate].
+      destruct o as [k g| | | | | | |]; try discriminate. destruct g as [a1|]; [|discriminate].
+      inversion E; subst. exists st, st1, k. auto.
+  - destruct (c4_addr cx) as [a0|]; [inversion H; subst; auto | destruct obs; discriminate].
+Qed.
